@@ -1,6 +1,6 @@
-(* C09: Table.merge (biom/table.py:3762-4032), its helpers _union_id_order /
-   _intersect_id_order (table.py:3391-3412), the pandas-free "fast" path _fast_merge
-   (table.py:3698-3760) and the default metadata policy prefer_self (util.py:195-197),
+(* C09: Table.merge (biom/table.py:3768-4038 at b9a3d3e4), its helpers _union_id_order /
+   _intersect_id_order (table.py:3397-3418), the pandas-free "fast" path _fast_merge
+   (table.py:3704-3766) and the default metadata policy prefer_self (util.py:195-197),
    modelled on the content of tables.  IDs are integer codes that respect python's string
    order (harness.tables.Coder), so sorted(...) is "sort by code".  Values are scaled
    integers.  A metadata-merge function is any Gallina function
@@ -25,15 +25,15 @@ Definition prefer_self : mdf := fun x y => if md_truthy x then x else y.
 (* the definition before the repair: x if x is not None else y *)
 Definition prefer_self_old : mdf := fun x y => match x with Some _ => x | None => y end.
 
-(* ---- table.py:3391-3401: walk a followed by b, an id gets the next index the first time it
-   is met; the dict is later turned into the list of ids by index (table.py:3879-3880) ---- *)
+(* ---- table.py:3397-3407: walk a followed by b, an id gets the next index the first time it
+   is met; the dict is later turned into the list of ids by index (table.py:3894-3895) ---- *)
 Definition uniq_step (acc : list Z) (x : Z) : list Z := if zmem x acc then acc else acc ++ [x].
 Definition union_order (a b : list Z) : list Z := fold_left uniq_step (a ++ b) [].
 
-(* ---- table.py:3403-3412: the ids of a, in a's order, that are members of set(b) ---- *)
+(* ---- table.py:3409-3418: the ids of a, in a's order, that are members of set(b) ---- *)
 Definition intersect_order (a b : list Z) : list Z := filter (fun x => zmem x b) a.
 
-(* table.py:3858-3875 *)
+(* table.py:3872-3890 *)
 Definition order_for (m : mode) (a b : list Z) : option (list Z) :=
   match m with
   | Union => Some (union_order a b)
@@ -41,23 +41,23 @@ Definition order_for (m : mode) (a b : list Z) : option (list Z) :=
   | BadMode => None
   end.
 
-(* ---- metadata of the result, table.py:3910-3953 then Table.__init__ ----
+(* ---- metadata of the result, table.py:3925-3968 then Table.__init__ (498-523, 675-700) ----
    md_of ax t i is None when the table has no metadata on that axis or does not know the id,
    otherwise the stored dict: exactly the self_md / other_md the code computes. *)
 Definition entry_of (o : option Tree) : Tree := match o with Some m => m | None => md_none end.
 Definition merged_md (f : mdf) (ax : axis) (a b : table) (idl : list Z) : option (list Tree) :=
   ctor_md (Some (map (fun i => entry_of (f (md_of ax a i) (md_of ax b i))) idl)).
 
-(* ---- one result vector, table.py:3959-4020 ---- *)
+(* ---- one result vector, table.py:3974-4035 ---- *)
 Definition vec_at (t : table) (o : Z) : option (list Z) := option_map (mrow (mat t)) (pos o (oids t)).
 (* vector value at a sample id; an id the table does not know contributes nothing *)
 Definition pick (t : table) (v : list Z) (s : Z) : Z :=
   match pos s (sids t) with Some j => nth j v 0%Z | None => 0%Z end.
 Definition merged_row (a b : table) (sord : list Z) (o : Z) : list Z :=
   match vec_at b o, vec_at a o with
-  | None, Some sv => map (pick a sv) sord                          (* 3983-3986 *)
-  | Some ov, None => map (pick b ov) sord                          (* 3990-3993 *)
-  | Some ov, Some sv => map (fun s => (pick a sv s + pick b ov s)%Z) sord   (* 4001-4016 *)
+  | None, Some sv => map (pick a sv) sord                          (* 3998-4001 *)
+  | Some ov, None => map (pick b ov) sord                          (* 4005-4008 *)
+  | Some ov, Some sv => map (fun s => (pick a sv s + pick b ov s)%Z) sord   (* 4016-4031 *)
   | None, None => map (fun _ => 0%Z) sord      (* not reachable: o comes from one of the two *)
   end.
 
@@ -66,7 +66,7 @@ Definition merged_row (a b : table) (sord : list Z) (o : Z) : list Z :=
 Definition drop_md : mdf := fun _ _ => None.
 Definition f_or_drop (f : option mdf) : mdf := match f with Some g => g | None => drop_md end.
 
-(* ---- the general (pairwise) merge, table.py:3855-4032.
+(* ---- the general (pairwise) merge, table.py:3861-4038.
    Refusals, in the order the code meets them: unknown mode (TableException), no sample /
    no observation left (TableException).
    The result is built by the plain constructor: no type. ---- *)
@@ -87,7 +87,7 @@ Definition merge_general (a b : table) (sm om : mode) (fs fo : option mdf) : res
     end
   end.
 
-(* ---- sorted(set(...)) over codes, table.py:3710-3716 ---- *)
+(* ---- sorted(set(...)) over codes, table.py:3716-3722 ---- *)
 Fixpoint uinsert (x : Z) (l : list Z) : list Z :=
   match l with
   | [] => [x]
@@ -95,7 +95,7 @@ Fixpoint uinsert (x : Z) (l : list Z) : list Z :=
   end.
 Definition usort (l : list Z) : list Z := fold_right uinsert [] l.
 
-(* ---- _fast_merge, table.py:3698-3760 ---- *)
+(* ---- _fast_merge, table.py:3704-3766 ---- *)
 Definition triple := (nat * nat * Z)%type.
 Definition t_row (e : triple) : nat := fst (fst e).
 Definition t_col (e : triple) : nat := snd (fst e).
@@ -112,7 +112,7 @@ Definition coo_of (t : table) : list triple :=
 (* feature_map[id] / sample_map[id]: index in the sorted global order *)
 Definition gpos (order : list Z) (x : Z) : nat := pos0 x order.
 
-(* row_map / col_map (3742-3747) applied to coo.row / coo.col (3748-3749) *)
+(* row_map / col_map (3748-3753) applied to coo.row / coo.col (3754-3755) *)
 Definition remap (fo so : list Z) (t : table) : list triple :=
   let row_map := map (gpos fo) (oids t) in
   let col_map := map (gpos so) (sids t) in
@@ -128,17 +128,17 @@ Definition fast_merge (ts : list table) : table :=
   let so := usort (flat_map sids ts) in
   mkT fo so (coo_dense (length fo) (length so) (flat_map (remap fo so) ts)) None None NOTYPE.
 
-(* ---- the entry point, table.py:3830-3855 ---- *)
+(* ---- the entry point, table.py:3836-3861 ---- *)
 Definition no_md (t : table) : bool :=
   match omd t, smd t with None, None => true | _, _ => false end.
 Definition is_none {A} (o : option A) : bool := match o with None => true | Some _ => false end.
 
-(* 3837-3845: fast iff (no operand has metadata on either axis, or both functions are None)
+(* 3843-3851: fast iff (no operand has metadata on either axis, or both functions are None)
    and both axes are 'union' *)
 Definition fast_ok (ts : list table) (sm om : mode) (fs fo : option mdf) : bool :=
   (forallb no_md ts || (is_none fs && is_none fo)) && is_union sm && is_union om.
 
-(* merged.merge(other, ...) with a single table: the recursive call of 3851 *)
+(* merged.merge(other, ...) with a single table: the recursive call of 3857 *)
 Definition merge_pair (sm om : mode) (fs fo : option mdf) (self other : table) : result table :=
   if fast_ok [self; other] sm om fs fo then ROk (fast_merge [self; other])
   else merge_general self other sm om fs fo.
@@ -148,13 +148,13 @@ Definition pair_step (sm om : mode) (fs fo : option mdf) (acc : result table) (o
   match acc with ROk m => merge_pair sm om fs fo m other | RErr c => RErr c end.
 
 (* self.merge(others, sample, observation, sample_metadata_f, observation_metadata_f) where a
-   single table argument is the one-element list (3830-3833) *)
+   single table argument is the one-element list (3836-3839) *)
 Definition merge_dispatch (self : table) (others : list table) (sm om : mode) (fs fo : option mdf)
   : result table :=
   if fast_ok (self :: others) sm om fs fo then ROk (fast_merge (self :: others))
   else match others with
        | [other] => merge_general self other sm om fs fo
-       | _ => fold_left (pair_step sm om fs fo) others (ROk self)      (* 3847-3854, self.copy() *)
+       | _ => fold_left (pair_step sm om fs fo) others (ROk self)      (* 3853-3860, self.copy() *)
        end.
 
 (* ---- what the property text asks of metadata ---- *)
